@@ -269,8 +269,29 @@ def shapes(tier, warnings=('all', 'none')):
     add('subtype cycle', 'two entities', wrap('ENTITY a SUBTYPE OF (b);\n  x : INTEGER;\nEND_ENTITY;\nENTITY b SUBTYPE OF (a);\n  y : INTEGER;\nWHERE\n  wr1 : x > 0;\nEND_ENTITY;\n'))
     add('subtype cycle', 'entity under itself', wrap('ENTITY a SUBTYPE OF (a);\n  x : INTEGER;\nEND_ENTITY;\n'))
     add('select cycle', 'two select types', wrap('TYPE s1 = SELECT (s2);\nEND_TYPE;\nTYPE s2 = SELECT (s1);\nEND_TYPE;\n' + ent()))
+    # cycles reached through a tail (the entry point is not on the cycle), longer cycles, cycles with extra members
+    add('select cycle', 'select type selecting itself', wrap('TYPE s1 = SELECT (s1);\nEND_TYPE;\n' + ent()))
+    add('select cycle', 'three select types', wrap('TYPE s1 = SELECT (s2);\nEND_TYPE;\nTYPE s2 = SELECT (s3);\nEND_TYPE;\nTYPE s3 = SELECT (s1);\nEND_TYPE;\n' + ent()))
+    for order in ((1, 2, 3), (3, 2, 1), (2, 3, 1)):
+        decl = {1: 'TYPE t1 = SELECT (t2, e);\nEND_TYPE;\n', 2: 'TYPE t2 = SELECT (t3, e);\nEND_TYPE;\n', 3: 'TYPE t3 = SELECT (e, t2);\nEND_TYPE;\n'}
+        add('select cycle', 'reached from a select type that is not on the cycle', wrap(ent() + ''.join(decl[i] for i in order)))
+    add('select cycle', 'two cycles sharing a select type',
+        wrap(ent() + 'TYPE t1 = SELECT (t2, t3);\nEND_TYPE;\nTYPE t2 = SELECT (t1, e);\nEND_TYPE;\nTYPE t3 = SELECT (t1, e);\nEND_TYPE;\nTYPE t0 = SELECT (t1, t2, t3);\nEND_TYPE;\n'))
+    add('select cycle', 'reached from an attribute and an aggregate', wrap('TYPE t2 = SELECT (t3, e);\nEND_TYPE;\nTYPE t3 = SELECT (t2);\nEND_TYPE;\n'
+                                                                         'ENTITY e;\n  a : t2;\n  b : LIST OF t3;\nEND_ENTITY;\n'))
+    add('subtype cycle', 'reached from an entity that is not on the cycle',
+        wrap('ENTITY a SUBTYPE OF (b);\nEND_ENTITY;\nENTITY b SUBTYPE OF (a);\nEND_ENTITY;\nENTITY c SUBTYPE OF (a);\n  z : INTEGER;\nEND_ENTITY;\nENTITY d SUBTYPE OF (c);\nWHERE\n  wr1 : z > 0;\nEND_ENTITY;\n'))
+    add('subtype cycle', 'three entities without attributes', wrap('ENTITY a SUBTYPE OF (c);\nEND_ENTITY;\nENTITY b SUBTYPE OF (a);\nEND_ENTITY;\nENTITY c SUBTYPE OF (b);\nEND_ENTITY;\n'))
+    add('subtype cycle', 'cycle with a second, acyclic supertype', wrap('ENTITY r;\n  x : INTEGER;\nEND_ENTITY;\nENTITY a SUBTYPE OF (r, b);\nEND_ENTITY;\nENTITY b SUBTYPE OF (a);\nEND_ENTITY;\n'))
+    add('subtype cycle', 'cycle declared through SUPERTYPE OF', wrap('ENTITY a SUPERTYPE OF (ONEOF (b)) SUBTYPE OF (b);\nEND_ENTITY;\nENTITY b SUPERTYPE OF (a) SUBTYPE OF (a);\nEND_ENTITY;\n'))
+    add('type cycle', 'reached from a defined type that is not on the cycle', wrap('TYPE t0 = t1;\nEND_TYPE;\nTYPE t1 = t2;\nEND_TYPE;\nTYPE t2 = t1;\nEND_TYPE;\n' + ent()))
+    add('type cycle', 'through an aggregate and a select', wrap('TYPE t1 = LIST OF t2;\nEND_TYPE;\nTYPE t2 = SELECT (t1, e);\nEND_TYPE;\n' + ent()))
     add('aggregate type containing itself', 'one defined type', wrap('TYPE t = SET [1:?] OF t;\nEND_TYPE;\n' + ent()))
     add('aggregate type containing itself', 'two defined types', wrap('TYPE t1 = LIST OF t2;\nEND_TYPE;\nTYPE t2 = SET OF t1;\nEND_TYPE;\n' + ent()))
+    add('aggregate type containing itself', 'reached from a defined type that is not on the cycle',
+        wrap('TYPE t0 = BAG OF t1;\nEND_TYPE;\nTYPE t1 = LIST OF t2;\nEND_TYPE;\nTYPE t2 = SET OF t1;\nEND_TYPE;\n' + ent()))
+    add('aggregate type containing itself', 'nested in-line aggregates', wrap('TYPE t = LIST OF SET OF ARRAY [1:2] OF t;\nEND_TYPE;\n' + ent()))
+    add('aggregate type containing itself', 'used as attribute type', wrap('TYPE t1 = LIST OF t2;\nEND_TYPE;\nTYPE t2 = SET OF t1;\nEND_TYPE;\nENTITY e;\n  a : t1;\n  b : ARRAY [1:2] OF t2;\nEND_ENTITY;\n'))
     add('type cycle', 'one defined type', wrap('TYPE t1 = t1;\nEND_TYPE;\n' + ent()))
     add('type cycle', 'two defined types', wrap('TYPE t1 = t2;\nEND_TYPE;\nTYPE t2 = t1;\nEND_TYPE;\n' + ent()))
     add('USE FROM itself', 'interface', wrap('USE FROM p;\n' + ent()))
